@@ -14,7 +14,7 @@ import (
 	"verif/internal/wk"
 )
 
-func p64(v int64) *int64     { return &v }
+func p64(v int64) *int64      { return &v }
 func pf64(v float64) *float64 { return &v }
 
 type namedI int64
